@@ -520,15 +520,16 @@ impl chain::Listen for Watcher {
             .map(|(_, tx)| (Locator::new(tx.compute_txid()), (*tx).clone()))
             .collect();
 
-        self.locator_cache
-            .lock()
-            .unwrap()
-            .update(*header, &locator_tx_map);
+        // The cache is kept locked until the breaches of this block have been handled: an appointment being added or updated
+        // concurrently is either stored before (and handled here) or finds both the updated cache and the resulting trackers.
+        let mut locator_cache = self.locator_cache.lock().unwrap();
+        locator_cache.update(*header, &locator_tx_map);
 
         // Get the breaches found in this block, handle them, and delete invalid ones.
         if let Some(invalid_breaches) = self.handle_breaches(self.get_breaches(locator_tx_map)) {
             self.gatekeeper.delete_appointments(invalid_breaches, false);
         }
+        drop(locator_cache);
 
         // Update last known block
         self.last_known_block_height
